@@ -163,6 +163,49 @@ func (fr *Frame) evalClause(c Clause, env *Env, what string) (out string) {
 	return env.evalBool(c.E)
 }
 
+// evalGoal evaluates a clause that is to be proved: outermost universal
+// quantifiers are replaced by fresh constants (so that real code can be
+// inlined below them and models name the witnesses).
+func (fr *Frame) evalGoal(c Clause, env *Env, what string) (out string) {
+	q, ok := c.E.(EQuant)
+	if !ok || !q.Forall {
+		return fr.evalClause(c, env, what)
+	}
+	defer func() {
+		if r := recover(); r != nil {
+			if ee, ok := r.(evalErr); ok {
+				panic(bindErr(fmt.Sprintf("%s:%d: %s `%s`: %s", shortFile(c.File), c.Line, what, c.Src, string(ee))))
+			}
+			panic(r)
+		}
+	}()
+	vc := fr.vc
+	var ranges []string
+	saved := map[string]*TV{}
+	for _, v := range q.Vars {
+		t := vc.eng.resolveType(v.T, env.pkg)
+		name := vc.freshConst("sk_"+v.Name, vc.sortOf(t))
+		if old, ok := env.bound[v.Name]; ok {
+			o := old
+			saved[v.Name] = &o
+		} else {
+			saved[v.Name] = nil
+		}
+		env.bound[v.Name] = TV{term: name, typ: t}
+		ranges = append(ranges, vc.rangeFact(name, t))
+		vc.wantValue(name)
+	}
+	body := fr.evalGoal(Clause{Label: c.Label, Src: c.Src, E: q.Body, File: c.File, Line: c.Line}, env, what)
+	for k, v := range saved {
+		if v == nil {
+			delete(env.bound, k)
+		} else {
+			env.bound[k] = *v
+		}
+	}
+	return implies(and(ranges...), body)
+}
+
 func (fr *Frame) evalClauseTV(c Clause, env *Env) (out TV) {
 	defer func() {
 		if r := recover(); r != nil {
@@ -842,6 +885,27 @@ func (e *Env) convertTo(t types.Type, args []Expr) TV {
 func (e *Env) predCall(pd *PredDecl, args []Expr) TV {
 	vc := e.vc
 	rt := vc.eng.resolveType(pd.Result, vc.eng.pkgByPath(pd.Pkg, e.pkg))
+	// predicates over references read the heap: expand them in the caller's state
+	if !pd.Rec {
+		stateDep := false
+		for _, p := range pd.Params {
+			switch vc.eng.resolveType(p.T, vc.eng.pkgByPath(pd.Pkg, e.pkg)).Underlying().(type) {
+			case *types.Pointer, *types.Slice, *types.Map, *types.Interface:
+				stateDep = true
+			}
+		}
+		if stateDep {
+			if len(args) != len(pd.Params) {
+				e.fail("%s takes %d arguments", pd.Name, len(pd.Params))
+			}
+			sub := &Env{vc: vc, fr: e.fr, names: map[string]TV{}, bound: e.bound, st: e.st, old: e.old, pkg: vc.eng.pkgByPath(pd.Pkg, e.pkg)}
+			for i, a := range args {
+				pt := vc.eng.resolveType(pd.Params[i].T, sub.pkg)
+				sub.names[pd.Params[i].Name] = e.coerce(e.eval(a, pt), pt)
+			}
+			return sub.coerce(sub.eval(pd.Body, rt), rt)
+		}
+	}
 	name := vc.declarePred(pd)
 	var ts []string
 	for i, a := range args {
